@@ -16,6 +16,14 @@ Inductive tuple := Tup (v : via) (version : string) (chain : N) (contract : stri
    submitted with it *)
 Inductive sess := Sess (sid : string) (batch : list proposal) (signed : string) (submitted : list proposal).
 
+(* what a long-lived digest object answered to one request: hex digest / an error / a Go panic *)
+Inductive hans := HDigest (s : string) | HErr | HPanic.
+
+(* one request of a history: the number of the object it went to, the object's arguments (its REAL chain id
+   and contract; see [Digest] for the meaning per entry point) with the batch of this request, whether the
+   chain-id RPC of the object's endpoint failed while the request was served, the answer *)
+Inductive hreq := HReq (obj : nat) (t : tuple) (rpc_fails : bool) (a : hans).
+
 Inductive case :=
 (* the 32 bytes handed to signing.  Direct: chains.ProposalsHash(props, chain, contract, version);
    Evm: BridgeContract.ProposalsHash over a fake client (chain id and contract address come from
@@ -35,6 +43,9 @@ Inductive case :=
    repetitions or concurrently; seen = (tuple number, a digest returned for it), every distinct
    answer is listed *)
 | Multi (tuples : list tuple) (seen : list (nat * string))
+(* a history of digest requests on long-lived objects (each real BridgeContract / Pallet built once), in the
+   order they were made, every request with freshly built proposals *)
+| Hist (reqs : list hreq)
 (* three relayers ran the real Executor.Execute (v = Evm | Substrate) with real threshold signing;
    complete = every session produced exactly one submission and every Execute returned;
    crashed = an Execute ended in a Go panic.  (One relayer without peers, where nothing can be signed:
@@ -70,6 +81,25 @@ Definition tuple_digest (t : tuple) : list N :=
 Definition session_of (s : sess) : session :=
   match s with Sess _ b signed sub => {| s_batch := b; s_signed := unhex signed; s_submitted := sub |} end.
 
+Definition answer_of (a : hans) : answer :=
+  match a with HDigest s => ADigest (unhex s) | HErr => AErr | HPanic => APanic end.
+
+Definition hist_of (reqs : list hreq) : list (list N * answer) :=
+  map (fun r => match r with HReq _ t _ a => (tuple_digest t, answer_of a) end) reqs.
+
+(* correspondence of a history: an object none of whose requests has met a failing RPC so far answers a
+   healthy request with a digest, as the model does (WHICH digest is the judge's business).  Nothing is demanded
+   of the error behaviour after a failure beyond the judge: an object that keeps a correctly obtained chain id
+   and therefore answers while the RPC is down, or one that stays cautious for a while, is no divergence. *)
+Fixpoint hist_agree (failed : list nat) (reqs : list hreq) : bool :=
+  match reqs with
+  | [] => true
+  | HReq obj _ fails a :: r =>
+      (if fails || existsb (Nat.eqb obj) failed then true
+       else match a with HDigest _ => true | _ => false end) &&
+      hist_agree (if fails then obj :: failed else failed) r
+  end.
+
 Definition agree (c : case) : bool :=
   match c with
   | Digest _ _ _ _ _ _ => true (* the judge already is equality with the model *)
@@ -80,6 +110,7 @@ Definition agree (c : case) : bool :=
       obytes_eqb (sig_assemble_bytes (unhex Rb) (unhex Sb) (unhex rec)) su
   | Kec m d => bytes_eqb (keccak256 (unhex m)) (unhex d)
   | Multi _ _ => true (* the judge already is equality with the model *)
+  | Hist reqs => hist_agree [] reqs
   | Exec _ _ _ _ complete _ => complete
   | Submit _ _ b e su passed => proposals_eqb e b && proposals_eqb su b && passed
   end.
@@ -97,6 +128,12 @@ Definition judge (c : case) : bool :=
       (* every answer for tuple i is the EIP-712 digest of tuple i's arguments (Model/C02.multi_ok) *)
       multi_ok (map tuple_digest ts) (map (fun x => (fst x, unhex (snd x))) seen) &&
       forallb (fun x => Nat.eqb (String.length (snd x)) 64) seen
+  | Hist reqs =>
+      (* Model/C02.hist_ok: every value that came back without an error is the EIP-712 digest for the object's
+         real chain id / contract and the batch of that request, whatever the object was asked or failed to
+         answer before; no panic *)
+      hist_ok (hist_of reqs) &&
+      forallb (fun r => match r with HReq _ _ _ (HDigest s) => Nat.eqb (String.length s) 64 | _ => true end) reqs
   | Exec v chain contract ss _ crashed =>
       (* Model/C02.exec_ok: per session (session_ok) signed value = digest of the session's batch = digest
          of what was submitted with the signature; and Execute did not crash *)
@@ -115,6 +152,9 @@ Definition tag (c : case) : N :=
   | SigRaw _ _ _ e _ => match e with None => 40 | Some _ => 41 end
   | Kec _ _ => 50
   | Multi ts _ => 60 + N.min 9 (N.of_nat (List.length ts))
+  | Hist reqs =>
+      (if existsb (fun r => match r with HReq _ _ f _ => f end) reqs then 110 else 100) +
+      N.min 9 (N.of_nat (List.length reqs))
   | Exec v _ _ ss _ _ => (match v with Substrate => 80 | _ => 70 end) + N.min 9 (N.of_nat (List.length ss))
   | Submit _ _ b e _ _ => 90 + (if Nat.eqb (List.length e) (List.length b) then 0 else 1)
   end.
